@@ -1,5 +1,426 @@
-//! C15 harness (stub: not implemented yet).
+//! C15 — wire messages round-trip and have a unique encoding.
+//!
+//! Runs the REAL `wire::deserialize::<Message>` / `wire::serialize` (`radicle-node/src/wire.rs`,
+//! `wire/message.rs`, `service/message.rs`) on byte strings.
+//!
+//! Case input (the same tokens the Lean driver reads): `<bytes hex> <onion set> <flag>`
+//!   * `onion set` — raw Tor addresses of the input accepted by the real `OnionAddrV3::from_raw_bytes`
+//!     (graph of the opaque function; recomputed and checked here);
+//!   * `flag` — `g`: the bytes were produced by `wire::serialize` from a message built with the repo's types
+//!     (oracle: must decode, and re-encode to the same bytes); `-` otherwise.
+//! Output: `ok <re-encoding> lossy=<-|p|a>` / `incomplete` (EOF error) / `invalid` / `panic:<msg>`.
+//!   `p`: decoded a ping/pong whose padding has a non-zero byte; `a`: decoded a node announcement whose
+//!   re-encoding differs from the input (user agent absent or cut short, defaulted); re-encoding `!` when
+//!   `wire::serialize` panics on the decoded message.
+
+mod wiregen;
+
+use radicle_node::service::message::{Announcement, AnnouncementMessage, Message};
+use radicle_node::wire;
+use verif_common::*;
+
+fn parse(input: &str) -> Option<(Vec<u8>, String, bool)> {
+    let t: Vec<&str> = input.split(' ').collect();
+    if t.len() != 3 {
+        return None;
+    }
+    let bytes = unhex(t[0])?;
+    let flag = match t[2] {
+        "g" => true,
+        "-" => false,
+        _ => return None,
+    };
+    Some((bytes, t[1].to_string(), flag))
+}
+
+fn is_node_ann(m: &Message) -> bool {
+    matches!(m, Message::Announcement(Announcement { message: AnnouncementMessage::Node(_), .. }))
+}
+
+/// `S <kind> <seed> <big>`: a message rebuilt from the PRNG seed on which `wire::serialize` panicked when the
+/// case was generated (only emitted in that situation; the encode half of the property failed).
+fn run_encode_case(input: &str) -> Option<Outcome> {
+    let t: Vec<&str> = input.split(' ').collect();
+    if t.len() != 4 || t[0] != "S" {
+        return None;
+    }
+    let (kind, seed, big): (u64, u64, u64) = (t[1].parse().ok()?, t[2].parse().ok()?, t[3].parse().ok()?);
+    let m = wiregen::message_of_kind(&mut Rng::new(seed), kind, big == 1);
+    Some(match catch(|| wire::serialize(&m)) {
+        Ok(b) => Outcome::new(format!("encodes {}", b.len())).trivial(),
+        Err(msg) => Outcome::new("encode-panic").tag("encode-panic").violation(
+            "encode-panic",
+            format!("wire::serialize panics on a {} built with the repo's types within its limits: {msg}", wiregen::kind_name(&m)),
+        ),
+    })
+}
+
+/// Build a message from the repo's types and serialize it; if that panics, the case is the `S` form.
+fn valid_case(rng: &mut Rng, kind: u64, big: bool) -> String {
+    let seed = rng.next();
+    let m = wiregen::message_of_kind(&mut Rng::new(seed), kind, big);
+    match catch(|| wire::serialize(&m)) {
+        Ok(b) => case_text(&b, true),
+        Err(_) => format!("S {kind} {seed} {}", big as u8),
+    }
+}
+
+fn run_case(input: &str) -> Outcome {
+    if let Some(o) = run_encode_case(input) {
+        return o;
+    }
+    let Some((bytes, onions, generated)) = parse(input) else { return Outcome::new("bad-case").trivial() };
+    if wiregen::onion_token(&bytes) != onions {
+        return Outcome::new("bad-case").trivial();
+    }
+    let res = catch(|| wire::deserialize::<Message>(&bytes));
+    let mut o;
+    match res {
+        Err(msg) => {
+            o = Outcome::new(format!("panic:{}", msg.replace(' ', "_"))).tag("decode-panic");
+            o = o.violation("decode-panic", format!("wire::deserialize panicked: {msg}"));
+        }
+        Ok(Err(e)) => {
+            let eof = e.is_eof();
+            o = Outcome::new(if eof { "incomplete" } else { "invalid" });
+            o = o.tag(if eof { "err-incomplete" } else { "err-invalid" });
+            if !eof {
+                // error kind, for the distribution only
+                let kind = format!("{e:?}");
+                let kind = kind.split(|c: char| !c.is_alphanumeric()).next().unwrap_or("").to_string();
+                o = o.tag(format!("err-{kind}"));
+            }
+            if generated {
+                o = o.violation("roundtrip-failed", format!("bytes produced by wire::serialize do not decode: {e}"));
+            }
+            o.nontrivial = false;
+        }
+        Ok(Ok(m)) => {
+            let kind = wiregen::kind_name(&m);
+            let re = catch(|| wire::serialize(&m));
+            // padding bytes of a ping/pong, read off the input
+            let pad_nonzero = match &m {
+                Message::Ping(_) => bytes[6..].iter().any(|b| *b != 0),
+                Message::Pong { .. } => bytes[4..].iter().any(|b| *b != 0),
+                _ => false,
+            };
+            let differs = re.as_ref().map(|r| r != &bytes).unwrap_or(false);
+            let lossy = if pad_nonzero { "p" } else if is_node_ann(&m) && differs { "a" } else { "-" };
+            let re_s = match &re {
+                Ok(r) => wiregen::short(r),
+                Err(_) => "!".to_string(),
+            };
+            o = Outcome::new(format!("ok {re_s} lossy={lossy}")).tag(format!("ok-{kind}"));
+
+            // ---- oracle: the property statement on what the real code did ----
+            match &re {
+                Err(msg) => {
+                    o = o.tag("reencode-panics");
+                    o = o.violation(
+                        "decoded-message-not-encodable",
+                        format!("{} bytes decode to a {kind} on which wire::serialize panics: {msg}", bytes.len()),
+                    );
+                }
+                Ok(r) => {
+                    if r.len() > u16::MAX as usize {
+                        o = o.violation("encode-size", format!("re-encoding has {} bytes", r.len()));
+                    }
+                    // decode_encode on the constructed value
+                    match catch(|| wire::deserialize::<Message>(r)) {
+                        Ok(Ok(m2)) if m2 == m => {}
+                        other => {
+                            o = o.violation(
+                                "roundtrip-failed",
+                                format!("deserialize(serialize(m)) != m for a decoded {kind}: {:?}", other.map(|x| x.is_ok())),
+                            );
+                        }
+                    }
+                    if r != &bytes {
+                        if generated {
+                            o = o.violation("roundtrip-failed", "serialize(deserialize(serialize(m))) differs".to_string());
+                        }
+                        if pad_nonzero {
+                            o = o.tag("noncanonical-padding");
+                            o = o.violation(
+                                "pingpong-nonzero-padding",
+                                format!("{kind} with a non-zero padding byte decodes and re-encodes with zeroes"),
+                            );
+                        } else if is_node_ann(&m) && r.len() >= 10 && bytes.len() == r.len() - 10 && r[..bytes.len()] == bytes[..] {
+                            // the documented exception: no user agent at all, `/radicle/` is appended
+                            o = o.tag("node-ann-without-agent");
+                        } else if is_node_ann(&m) && r.len() >= 10 && bytes.len() > r.len() - 10
+                            && r[..r.len() - 10] == bytes[..r.len() - 10]
+                        {
+                            o = o.tag("noncanonical-truncated-agent");
+                            o = o.violation(
+                                "node-ann-truncated-agent",
+                                format!(
+                                    "node announcement followed by {} stray byte(s) (a user agent cut short) decodes; re-encoding replaces them by the default agent",
+                                    bytes.len() - (r.len() - 10)
+                                ),
+                            );
+                        } else {
+                            o = o.violation(
+                                "noncanonical-other",
+                                format!("{kind}: decodes but re-encodes differently ({} vs {} bytes)", bytes.len(), r.len()),
+                            );
+                        }
+                    }
+                }
+            }
+        }
+    }
+    if generated {
+        o = o.tag("flag-generated");
+    }
+    o
+}
+
+// ---------------------------------------------------------------------------------------------------
+// generation
+
+fn case_text(bytes: &[u8], generated: bool) -> String {
+    format!("{} {} {}", hex(bytes), wiregen::onion_token(bytes), if generated { "g" } else { "-" })
+}
+
+/// Offset of the alias length byte in a node announcement.
+const ALIAS_OFF: usize = 2 + 32 + 64 + 1 + 8 + 8;
+
+/// UTF-8 / alias / user-agent boundary strings (as bytes; some are not UTF-8).
+fn tricky_strings(rng: &mut Rng) -> Vec<u8> {
+    let fixed: &[&[u8]] = &[
+        b"", b"a", b" ", b"a b", b"a\tb", b"a\nb", b"\x7f", b"\x1f", b"\x00", b"~", b"!",
+        "\u{80}".as_bytes(), "\u{85}".as_bytes(), "\u{9f}".as_bytes(), "\u{a0}".as_bytes(), "\u{a1}".as_bytes(),
+        "\u{1680}".as_bytes(), "\u{1681}".as_bytes(), "\u{1fff}".as_bytes(), "\u{2000}".as_bytes(),
+        "\u{200a}".as_bytes(), "\u{200b}".as_bytes(), "\u{2028}".as_bytes(), "\u{2029}".as_bytes(),
+        "\u{202a}".as_bytes(), "\u{202f}".as_bytes(), "\u{205f}".as_bytes(), "\u{2060}".as_bytes(),
+        "\u{3000}".as_bytes(), "\u{3001}".as_bytes(), "\u{feff}".as_bytes(), "\u{7ff}".as_bytes(),
+        "\u{800}".as_bytes(), "\u{d7ff}".as_bytes(), "\u{e000}".as_bytes(), "\u{ffff}".as_bytes(),
+        "\u{10000}".as_bytes(), "\u{10ffff}".as_bytes(),
+        b"\xc0\x80", b"\xc1\xbf", b"\xc2", b"\xc2\x7f", b"\xc2\xc0", b"\xe0\x80\x80", b"\xe0\x9f\xbf",
+        b"\xe0\xa0\x80", b"\xed\x9f\xbf", b"\xed\xa0\x80", b"\xed\xbf\xbf", b"\xee\x80\x80", b"\xef\xbf",
+        b"\xf0\x8f\xbf\xbf", b"\xf0\x90\x80\x80", b"\xf4\x8f\xbf\xbf", b"\xf4\x90\x80\x80", b"\xf5\x80\x80\x80",
+        b"\xf8\x88\x80\x80\x80", b"\x80", b"\xbf", b"\xff", b"a\xe2\x82", b"\xe2\x82\xac",
+        // user agents
+        b"/radicle/", b"/", b"//", b"///", b"/:/", b"/a", b"a/", b"/a:/", b"/:b/", b"/a:b/", b"/a b:c/",
+        b"/a:b c/", b"/a:b:c/", b"/a//b/", b"/a/b:/", "/é:1/".as_bytes(), "/a:é/".as_bytes(), "/é/".as_bytes(),
+        b"/a\x7f:1/", b"/a~:1/", b"/a!:1/", b"/a :1/", b"/radicle:1.0.0/heartwood:0.9/rust:1.77/",
+    ];
+    match rng.below(10) {
+        0 => vec![b'@'; 32],
+        1 => vec![b'@'; 33],
+        2 => format!("/{}/", "a".repeat(62)).into_bytes(),
+        3 => format!("/{}/", "a".repeat(63)).into_bytes(),
+        4 => {
+            // 32 / 33 bytes made of 2-byte chars
+            let n = rng.range(15, 17) as usize;
+            "é".repeat(n).into_bytes()
+        }
+        5 => {
+            // random scalar value near a boundary
+            let c = *rng.pick(&[0x1fu32, 0x20, 0x21, 0x7e, 0x7f, 0x80, 0x84, 0x85, 0x86, 0x9f, 0xa0, 0xa1, 0x167f, 0x1680,
+                0x1681, 0x1fff, 0x2000, 0x200a, 0x200b, 0x2027, 0x2028, 0x2029, 0x202a, 0x202e, 0x202f, 0x2030, 0x205e,
+                0x205f, 0x2060, 0x2fff, 0x3000, 0x3001]);
+            let mut s = String::from("x");
+            s.push(char::from_u32(c).unwrap());
+            s.push('y');
+            s.into_bytes()
+        }
+        6 => {
+            let n = rng.below(8) as usize;
+            rng.bytes(n)
+        }
+        _ => rng.pick(fixed).to_vec(),
+    }
+}
+
+/// A node announcement (as bytes) whose alias and user agent fields are replaced by arbitrary byte strings.
+fn node_ann_with_strings(rng: &mut Rng, alias: Option<&[u8]>, agent: Option<&[u8]>) -> Vec<u8> {
+    let m = wiregen::message_of_kind(rng, 1, false);
+    let enc = wire::serialize(&m);
+    let alen = enc[ALIAS_OFF] as usize;
+    let mut out = enc[..ALIAS_OFF].to_vec();
+    match alias {
+        Some(a) => {
+            out.push(a.len() as u8);
+            out.extend_from_slice(a);
+        }
+        None => out.extend_from_slice(&enc[ALIAS_OFF..ALIAS_OFF + 1 + alen]),
+    }
+    let rest = &enc[ALIAS_OFF + 1 + alen..];
+    // the user agent is the last string of the encoding: find it by decoding the real message again
+    let Message::Announcement(Announcement { message: AnnouncementMessage::Node(n), .. }) = &m else { unreachable!() };
+    let ua_len = n.agent.as_str().len();
+    let rest_wo_agent = &rest[..rest.len() - 1 - ua_len];
+    out.extend_from_slice(rest_wo_agent);
+    match agent {
+        Some(a) => {
+            out.push(a.len() as u8);
+            out.extend_from_slice(a);
+        }
+        None => out.extend_from_slice(&rest[rest.len() - 1 - ua_len..]),
+    }
+    out
+}
+
+fn gen_case(rng: &mut Rng) -> (String, &'static str) {
+    let big = rng.chance(1, 60);
+    match rng.below(200) / 5 {
+        // messages built with the repo's types
+        0..=11 => {
+            let kind = rng.below(7);
+            (valid_case(rng, kind, big), "gen-valid")
+        }
+        // alias / user agent / utf-8 boundaries inside a node announcement
+        12..=16 => {
+            let a = tricky_strings(rng);
+            (case_text(&node_ann_with_strings(rng, Some(&a), None), false), "gen-alias")
+        }
+        17..=20 => {
+            let a = tricky_strings(rng);
+            (case_text(&node_ann_with_strings(rng, None, Some(&a)), false), "gen-agent")
+        }
+        // node announcement: user agent dropped / cut short / garbage after it
+        21..=23 => {
+            let m = wiregen::message_of_kind(rng, 1, false);
+            let enc = wire::serialize(&m);
+            let Message::Announcement(Announcement { message: AnnouncementMessage::Node(n), .. }) = &m else { unreachable!() };
+            let ua = 1 + n.agent.as_str().len();
+            let keep = match rng.below(4) {
+                0 => 0,
+                1 => 1,
+                _ => rng.below(ua as u64 + 1) as usize,
+            };
+            let mut b = enc[..enc.len() - ua + keep].to_vec();
+            if rng.chance(1, 6) {
+                b.push(rng.next() as u8);
+            }
+            (case_text(&b, false), "gen-agent-cut")
+        }
+        // ping / pong with arbitrary padding
+        24..=26 => {
+            let kind = 5 + rng.below(2);
+            let m = wiregen::message_of_kind(rng, kind, false);
+            let mut b = wire::serialize(&m);
+            let start = if kind == 5 { 6 } else { 4 };
+            if b.len() > start {
+                for _ in 0..rng.range(1, 3) {
+                    let i = start + rng.below((b.len() - start) as u64) as usize;
+                    b[i] = if rng.chance(1, 4) { 0 } else { rng.range(1, 255) as u8 };
+                }
+            }
+            (case_text(&b, false), "gen-padding")
+        }
+        // field-level mutations of a valid encoding
+        27..=34 => {
+            let m = wiregen::message(rng, false);
+            let mut b = wire::serialize(&m);
+            let n = b.len();
+            match rng.below(8) {
+                0 => { let i = rng.below(n as u64) as usize; b[i] ^= 1 << rng.below(8); }
+                1 => { let i = rng.below(n as u64) as usize; b[i] = rng.next() as u8; }
+                2 => { let i = rng.below(n as u64 + 1) as usize; b.insert(i, rng.next() as u8); }
+                3 => { let i = rng.below(n as u64) as usize; b.remove(i); }
+                4 => { b.truncate(rng.below(n as u64) as usize); }
+                5 => { b.push(rng.next() as u8); }
+                6 => { b[0] = 0; b[1] = *rng.pick(&[0u8, 1, 2, 3, 4, 6, 8, 10, 12, 14, 16]); }
+                _ => {
+                    // a byte in the first 130 bytes (headers, counts, lengths) set to a boundary value
+                    let i = rng.below(n.min(130) as u64) as usize;
+                    b[i] = *rng.pick(&[0u8, 1, 2, 3, 4, 5, 16, 17, 20, 21, 0x7f, 0x80, 0xff]);
+                }
+            }
+            (case_text(&b, false), "gen-mutated")
+        }
+        // vector counts beyond the limits (cannot be built with BoundedVec): patch the count, append items
+        35..=36 => {
+            let (kind, limit, off, item): (u64, usize, usize, usize) = match rng.below(16) {
+                0 => (2, 2973, 2 + 32 + 64, 22),
+                1 => (3, 1024, 2 + 32 + 64 + 22, 54),
+                _ => (1, 16, 0, 0),
+            };
+            if kind == 1 {
+                // 17 IPv4 addresses
+                let m = wiregen::message_of_kind(rng, 1, false);
+                let enc = wire::serialize(&m);
+                let alen = enc[ALIAS_OFF] as usize;
+                let cnt = ALIAS_OFF + 1 + alen;
+                let n = *rng.pick(&[16u16, 17]);
+                let mut b = enc[..cnt].to_vec();
+                b.extend_from_slice(&n.to_be_bytes());
+                for _ in 0..n {
+                    b.push(1);
+                    b.extend_from_slice(&wiregen::arr::<4>(rng));
+                    b.extend_from_slice(&[0x22, 0x48]);
+                }
+                b.extend_from_slice(&rng.next().to_be_bytes());
+                b.extend_from_slice(&[9]);
+                b.extend_from_slice(b"/radicle/");
+                return (case_text(&b, false), "gen-over-limit");
+            }
+            let n = *rng.pick(&[limit, limit + 1]);
+            let m = wiregen::message_of_kind(rng, kind, false);
+            let enc = wire::serialize(&m);
+            let mut b = enc[..off].to_vec();
+            b.extend_from_slice(&(n as u16).to_be_bytes());
+            for _ in 0..n {
+                if item == 54 {
+                    b.extend_from_slice(&wiregen::arr::<32>(rng));
+                }
+                b.extend_from_slice(&[0, 20]);
+                b.extend_from_slice(&wiregen::arr::<20>(rng));
+            }
+            b.extend_from_slice(&(rng.next() >> 1).to_be_bytes());
+            (case_text(&b, false), "gen-over-limit")
+        }
+        // ping/pong counts around the encodable maximum (64 KiB inputs: rare)
+        37 if rng.chance(1, 5) => {
+            let pong = rng.bool();
+            let n = *rng.pick(&[65529u16, 65530, 65531, 65532, 65535]);
+            let mut b = if pong { vec![0, 12] } else { vec![0, 10, 0, 0] };
+            b.extend_from_slice(&n.to_be_bytes());
+            b.extend(std::iter::repeat(0u8).take(n as usize));
+            (case_text(&b, false), "gen-pingpong-max")
+        }
+        // random bytes behind a valid type id
+        _ => {
+            let mut b = vec![0, *rng.pick(&[2u8, 4, 6, 8, 10, 12, 14])];
+            let n = rng.below(200) as usize;
+            b.extend(rng.bytes(n));
+            (case_text(&b, false), "gen-random")
+        }
+    }
+}
+
 fn main() {
-    eprintln!("C15: harness not implemented");
-    std::process::exit(3);
+    let mut ctx = Ctx::from_args("C15");
+    if !ctx.run_fixed(run_case) {
+        // every message type at every boundary size, built with the repo's types
+        let mut rng = Rng::new(0xC15);
+        for kind in 0..7 {
+            for _ in 0..6 {
+                let input = valid_case(&mut rng, kind, true);
+                let o = run_case(&input);
+                ctx.count("gen-valid-big");
+                ctx.record(&input, o);
+            }
+        }
+        let mut rng = ctx.rng();
+        for _ in 0..ctx.size(12_000, 400_000) {
+            let (input, tag) = gen_case(&mut rng);
+            let o = run_case(&input);
+            ctx.count(tag);
+            ctx.record(&input, o);
+        }
+    }
+    ctx.finish(
+        "byte strings given to the real wire::deserialize::<Message>: encodings of messages of every type built from \
+         the repo's types (vector sizes 0/1/limit-1/limit, ping/pong sizes up to MAX_*_ZEROES, timestamps 0 and i64::MAX, \
+         all address types incl. valid onion addresses, multi-byte aliases, agents); node announcements with alias / \
+         user-agent fields replaced by UTF-8, White_Space/Cc and user-agent-grammar boundary strings; user agent dropped \
+         or cut short; ping/pong padding overwritten; bit/byte/insert/delete/truncate/append mutations; counts beyond the \
+         vector limits; ping/pong counts around the encodable maximum; random bytes behind a valid type id. \
+         non-trivial = the bytes decoded (the property speaks about bytes that decode); distinct by input text",
+        false,
+    );
 }
